@@ -627,9 +627,16 @@ func checkAndPropagateArgs(
 		}
 
 		if isNotDefineArgArgsError(isKeyTypeDefineArg, sortedArgTs, argIdx) && !definedArgT.HasDefault() {
+			// positional parameters of configured methods only have a generated
+			// name (var12) that depends on the load order: name the position
+			argName := definedArg
+			if definedArgT.IsBuiltin() && !isKeyTypeDefineArg {
+				argName = fmt.Sprintf("argument %d", defineArgIdx+1)
+			}
+
 			err = fmt.Errorf(
 				"%s is not defined expected %s",
-				definedArg,
+				argName,
 				makeDefineArgumentInfo(m, class, methodT),
 			)
 
